@@ -286,7 +286,12 @@ theorem groupvm_is_corevm_partial_fork (fuel : Nat) (s : CoreVM.VM) (f : CoreInd
       CoreVM.runMembers (fuel + 1) f ((CoreVM.newKeys f s.r.nextUid lps.length).map (·.2)) s1 = .ok () s2 ∧
       CoreVM.FlowAt s2 f i2 x' cfg ∧ x'.ctxOwner = x.ctxOwner ∧
       CoreVM.hview i2 = (CoreVM.hview i).map (CoreVM.setCore h (hd.pos + 1) .inactive) ++
-        (CoreVM.newView s.r.nextUid (lps.map (·.2))).map (fun t => (t.1, t.2.1 + 1, t.2.2)) :=
+        (CoreVM.newView s.r.nextUid (lps.map (·.2))).map (fun t => (t.1, t.2.1 + 1, t.2.2)) ∧
+      x'.forkUids = OMap.insert u h x.forkUids ∧ i2.status = i.status ∧ s2.r.nextUid = s.r.nextUid + lps.length ∧
+      -- the HeadX records: the forking head lists the new heads as its children, the new heads have none
+      (∀ a0, OMap.lookup (f, h) s.r.hx = some a0 → (∀ m, m > s.r.nextUid → OMap.lookup (f, CoreVM.uidOf m) s.r.hx = none) →
+        ((OMap.lookup (f, h) s2.r.hx).getD {}).childHeadUids = a0.childHeadUids ++ (CoreVM.newKeys f s.r.nextUid lps.length).map (·.2) ∧
+        (∀ k ∈ CoreVM.newKeys f s.r.nextUid lps.length, ((OMap.lookup k s2.r.hx).getD {}).childHeadUids = [])) :=
   CoreVM.fork_segment fuel s f h i x cfg hd fl u lps H hact hlis hcatch hsz hfork hl hnews hnd hfresh
 
 /-- **groupvm_is_corevm_partial (merge segment, the and-clause completes).**  After phase 1 exactly one member head is MERGING, the
